@@ -257,6 +257,10 @@ pub fn gen_type_at(u: &mut Unstructured, d: usize, spine: bool, g: &mut TypeGen)
                 3 if is_leaf(&c) => gen::range_u64(u, 0, 40) as u32,
                 _ => gen::range_u64(u, 0, 4) as u32,
             };
+            // a value of a fixed-size array has n copies of its element whatever the choice bytes say:
+            // keep the product over nested arrays bounded (nested [4; [4; ...]] would be exponential)
+            let per = mandatory_nodes(&c);
+            let n = if (n as u64).saturating_mul(per) > 4096 { (4096 / per).max(1) as u32 } else { n };
             Type::Array(n, Box::new(c))
         }
         5 => Type::Struct(gen_fields(u, d1, spine, g)),
@@ -448,6 +452,20 @@ pub fn zero_width(ty: &Type) -> bool {
         Type::ByteArray(0) => true,
         _ => false,
     }
+}
+
+/// Number of value nodes every value of the type has at least (variable-size collections count as
+/// empty, enums as their largest variant).
+pub fn mandatory_nodes(ty: &Type) -> u64 {
+    fn fz(f: &Fields) -> u64 { fields_types(f).into_iter().map(mandatory_nodes).fold(0u64, |a, b| a.saturating_add(b)) }
+    1u64.saturating_add(match ty {
+        Type::Pair(a, b) => mandatory_nodes(a).saturating_add(mandatory_nodes(b)),
+        Type::Array(n, t) => (*n as u64).saturating_mul(mandatory_nodes(t)),
+        Type::Struct(f) => fz(f),
+        Type::Enum(vs) => vs.iter().map(|v| fz(&v.1)).max().unwrap_or(0),
+        Type::TaggedEnum(vs) => vs.values().map(|(_, f)| fz(f)).max().unwrap_or(0),
+        _ => 0,
+    })
 }
 
 /// Upper bound on the number of JSON nodes a value of a zero-width type expands to.
